@@ -66,6 +66,13 @@ func child(path string) {
 	}
 }
 
+func entryAt(t pipe.Transcript, i int) interface{} {
+	if i >= 0 && i < len(t) {
+		return t[i]
+	}
+	return nil
+}
+
 func intern(ids map[string]int, k string) int {
 	id, ok := ids[k]
 	if !ok {
@@ -162,7 +169,7 @@ func main() {
 		}
 	}
 
-	total := o.Count(400, 30000)
+	total := o.Count(350, 30000)
 	nproc := o.Count(20, 200)
 	if o.N > 0 {
 		nproc = 4
@@ -179,6 +186,9 @@ func main() {
 		}
 		if f.AncestorField() != "" && r.Chance(0.4) {
 			extra = append(extra, f.AncestorField())
+			if r.Chance(0.5) {
+				extra = append(extra, f.AncestorManyField(r.Between(12, 30)))
+			}
 		}
 		var must []string
 		switch r.Pick(6) {
@@ -220,7 +230,12 @@ func main() {
 		comp2, _ := pipe.Compile(schema) // schema loaded again: new random declaration hashes
 		t3 := comp2.RunReal(in, cs.Ext)
 		dump2 := comp2.DeclDump()
-		// random prefix of OTHER transforms, then again
+		// random prefix of OTHER transforms (and a widely varying number of node acquisitions), then again
+		if r.Chance(0.5) {
+			burn := []int{300, 5000, 70000, 400000}[r.Pick(4)]
+			pipe.BurnIDs(r.Between(burn/3, burn))
+			sum.Hist(fmt.Sprintf("id-counter-advanced:<=%d", burn))
+		}
 		k := 0
 		if len(history) > 0 {
 			k = r.Between(1, 4)
@@ -232,7 +247,24 @@ func main() {
 		// ONE Schema object, a further transform with DIFFERENT externals: it must see its own
 		tB := comp.RunReal(in, cs2.Ext)
 		tB2 := runOnce(cs2)
+		// two transforms read alternately (results retained): each must be its solo transcript
+		if len(history) > 0 {
+			other := history[r.Pick(len(history))]
+			if oc, err := pipe.Compile(other.Schema); err == nil {
+				solo := oc.RunReal(other.Input(), other.Ext)
+				i1, i2 := pipe.RunInterleaved(comp, in, cs.Ext, oc, other.Input(), other.Ext, r.Between(1, 3), r.Between(1, 3))
+				sum.Hist("interleaved-pairs")
+				if !i1.Equal(t1) || !i2.Equal(solo) {
+					sum.Fail("two transforms read alternately do not give their solo transcripts", cs,
+						map[string]interface{}{"other": other, "solo_1": t1, "interleaved_1": i1, "solo_2": solo, "interleaved_2": i2})
+				}
+			}
+		}
 		pipe.Unwatch()
+		if bad := pipe.CheckRetained(); len(bad) > 0 {
+			sum.Fail("a result slice returned by Transform.Read changed after later Reads (of this or of other transforms): "+bad[0], cs,
+				map[string]interface{}{"violations": bad})
+		}
 		if !tB.Equal(tB2) {
 			sum.Fail("a Schema used for a second transform with different external properties gives a different transcript than a fresh Schema with those externals (first difference at result "+fmt.Sprint(pipe.FirstDiff(tB, tB2))+")",
 				cs2, map[string]interface{}{"same_schema_object": tB, "fresh_schema": tB2, "externals_of_the_first_transform": cs.Ext})
@@ -284,7 +316,8 @@ func main() {
 					cw.Add("C15Canon "+vh.CoqTree(n)+" "+pipe.CoqJV(idr.J2NodeToInterface(n, true)),
 						map[string]interface{}{"case": cs, "kind": "canon", "record": k})
 					sum.Hist("canon-case:" + f.Name)
-					if f.Name != "json" && f.Name != "xml" {
+					if f.Name != "json" && f.Name != "xml" && n.FirstChild != nil && n.FirstChild != n.LastChild {
+						// (the premise of canon_injective_flat: at least two columns; a short csv row has fewer)
 						cw.Add("C15Flat "+vh.CoqTree(n), map[string]interface{}{"case": cs, "kind": "flat-shape", "record": k})
 					}
 				}
@@ -306,6 +339,59 @@ func main() {
 		}
 	}
 
+	// ---- big cases: many declarations incl. ancestor-anchored objects, hundreds of records; the
+	// process-wide node ID counter at the start of the transform differs widely between the
+	// in-process runs and the fresh process each of them is compared with ----
+	nbig := o.Count(16, 200)
+	if o.N > 0 {
+		nbig = 3
+	}
+	var big []pending
+	for b := 0; b < nbig; b++ {
+		f := fmts[5+r.Pick(2)] // json, xml: formats with long-lived ancestors
+		env := pipe.Env{Header: f.Name == "xml" && r.Chance(0.5), Ctx: "H1"}
+		pipe.Skip["dyn3"] = true
+		schema, feats := f.SchemaWith(r, []string{"plain", "cast", "identical-decls", "identical-decls-anchoring", "template",
+			"template-dynamic-anchors", "typed-externals", "external-const", "xpath_dynamic", "late-cast"},
+			[]string{f.AncestorField(), f.AncestorManyField(r.Between(12, 40))}, env)
+		delete(pipe.Skip, "dyn3")
+		if feats["javascript"] || feats["javascript_with_context"] || feats["js-whitespace"] || feats["js-throw"] || feats["js-global-probe"] {
+			sum.Hist("big:with-javascript")
+		}
+		n := r.Between(150, 400)
+		recs := make([]pipe.Rec, n)
+		for i := range recs {
+			recs[i] = f.Place(r, env, pipe.GenRec(r, f, r.Chance(0.95)))
+		}
+		in := f.Render(env, recs)
+		cs := pipe.NewCase(f.Name, schema, in)
+		cs.Ext = pipe.GenExt(r.Pick)
+		vh.Current(o, cs)
+		pipe.Watch("big " + f.Name)
+		pipe.BurnIDs(r.Between(1000, 300000))
+		t1 := runOnce(cs)
+		pipe.BurnIDs(r.Between(10, 5000))
+		t2 := runOnce(cs)
+		pipe.Unwatch()
+		canon, _ := json.Marshal(cs)
+		sum.Count(string(canon), true)
+		sum.Hist("big-case:" + f.Name)
+		sum.Hist(fmt.Sprintf("big-case-records:%d-%d", n/100*100, n/100*100+99))
+		if !t1.Equal(t2) {
+			i := pipe.FirstDiff(t1, t2)
+			sum.Fail(fmt.Sprintf("transcript differs between two runs in one process with different node ID counter values (first difference at result %d)", i), cs,
+				map[string]interface{}{"first": entryAt(t1, i), "second": entryAt(t2, i)})
+		}
+		if bad := pipe.CheckOutputs(feats, cs.Ext, t1); len(bad) > 0 {
+			sum.Fail("output relation violated: "+bad[0], cs, map[string]interface{}{"violations": bad})
+		}
+		if bad := pipe.CheckRetained(); len(bad) > 0 {
+			sum.Fail("a result slice returned by Transform.Read changed after later Reads: "+bad[0], cs, map[string]interface{}{"violations": bad})
+		}
+		cw.Add("C15Det "+coqRuns([]pipe.Transcript{t1, t2}), map[string]interface{}{"kind": "big-in-process", "format": f.Name, "records": n})
+		big = append(big, pending{cs, t1})
+	}
+
 	// ---- fresh processes ----
 	self, err := os.Executable()
 	if err != nil {
@@ -315,10 +401,14 @@ func main() {
 			nproc = len(pend)
 		}
 		sum.Extra["fresh_processes"] = nproc
-		for p := 0; p < nproc; p++ {
+		for p := 0; p < nproc+len(big); p++ {
 			var batch []pending
-			for i := p; i < len(pend); i += nproc {
-				batch = append(batch, pend[i])
+			if p >= nproc {
+				batch = []pending{big[p-nproc]} // a big case alone in its fresh process (counter starts at 0)
+			} else {
+				for i := p; i < len(pend); i += nproc {
+					batch = append(batch, pend[i])
+				}
 			}
 			cases := make([]pipe.Case, len(batch))
 			for i, b := range batch {
@@ -347,8 +437,9 @@ func main() {
 			for i, b := range batch {
 				sum.Hist("fresh-process-comparisons")
 				if !b.first.Equal(ts[i]) {
-					sum.Fail("transcript of a fresh process differs from the in-process transcript (first difference at result "+fmt.Sprint(pipe.FirstDiff(b.first, ts[i]))+")",
-						b.cs, map[string]interface{}{"in_process": b.first, "fresh_process": ts[i]})
+					k := pipe.FirstDiff(b.first, ts[i])
+					sum.Fail("transcript of a fresh process differs from the in-process transcript (first difference at result "+fmt.Sprint(k)+")",
+						b.cs, map[string]interface{}{"in_process": entryAt(b.first, k), "fresh_process": entryAt(ts[i], k)})
 				}
 				cw.Add("C15Det "+coqRuns([]pipe.Transcript{b.first, ts[i]}), map[string]interface{}{"case": b.cs, "kind": "fresh-process"})
 			}
